@@ -323,8 +323,14 @@ func (ss *SourceConf) MarshalJSON() ([]byte, error) {
 	if ss.IncludeHidden {
 		aux.IncludeHidden = "true"
 	}
+	// (not append(ss.Include, ss.Ignore...): a source that inherited its include
+	// patterns shares their backing array - and the room behind them, which holds
+	// the preceding source's ignore patterns - with that source)
 	var strings []string
-	for _, p := range append(ss.Include, ss.Ignore...) {
+	for _, p := range ss.Include {
+		strings = append(strings, p.String())
+	}
+	for _, p := range ss.Ignore {
 		strings = append(strings, p.String())
 	}
 	aux.Include = strings[0:len(ss.Include)]
